@@ -34,11 +34,19 @@ def clist(xs, f):
 
 
 def dt_table():
-    return [(d, c07gen.parse_dt(d)) for d in c07gen.DT_RAW]
+    """raw DT value -> canonical form (None: rejected); closed under canonicalisation,
+    so that text the library printed can be read back by the model"""
+    t = [(d, c07gen.parse_dt(d)) for d in c07gen.DT_RAW]
+    canon = sorted({c for _, c in t if c} | {c07gen.canon_api_date(d) for d in c07gen.API_DATES if d})
+    have = {d for d, _ in t}
+    return t + [(c, c07gen.parse_dt(c)) for c in canon if c not in have]
 
 
 def ur_table():
-    return list(c07gen.URI_RAW)
+    t = list(c07gen.URI_RAW)
+    have = {u for u, _ in t}
+    canon = sorted({c for _, c in t if c} | {u for u in c07gen.URIS if u})
+    return t + [(c, c) for c in canon if c not in have]
 
 
 def coq_op(o):
@@ -184,7 +192,7 @@ def check_tables(res):
     """The tables given to the model for the opaque libraries are what the
     libraries do (time parsing/formatting through the @RG parser, URL
     normalisation through the @SQ parser), and formatting is stable."""
-    qs = c07gen.lib_queries()
+    qs = ['dt:' + d for d, _ in dt_table()] + ['ur:' + u for u, _ in ur_table()]
     o = core.run_harness('c07', [dict(lib=qs)])[0]
     got = o.get('lib', [])
     want = [('error' if c is None else 'ok:' + c) for _, c in dt_table()] + \
@@ -270,6 +278,8 @@ MODEL = os.path.exists(os.path.join(core.COQ, 'Model', 'HeaderRun.v'))
 
 def replay(res, rp):
     c = rp.get('case')
+    if not c and rp.get('correspondence'):
+        c = rp['correspondence'][0].get('case')
     if not c or 'ops' not in c:
         print(json.dumps(rp, indent=1)[:4000])
         return 0
@@ -301,9 +311,14 @@ ASSUME = [
 ]
 
 CLAIM = dict(
-    text='Machine-checked proof (Coq 8.16.1) about a hand-written model of the SAM header code (objects with identity, name tables, the five line parsers with checked indexing, text and binary codecs): '
-         'the identity invariant HInv holds after every history of the listed operations and no operation panics; merged references are owned, listed and keep name and length; '
-         'text and binary round trips. The model is run against the implementation on random edit histories on every run, and an oracle checks the invariants on the real objects.',
-    note='Trusted: Coq kernel; the hand model (tied by correspondence runs only); opaque time/URL functions with stated laws; Go maps as association lists.',
-    technique='Coq proof over hand model + vm_compute correspondence on edit histories + invariant oracle on the real objects',
+    text='Machine-checked proof (Coq 8.16.1, no axioms) about a hand-written model of the SAM header code (items with identity in stores, name tables, '
+         'the five line parsers with checked indexing, text and binary codecs): for EVERY history of New*/Clone/NewHeader/Add*/Remove*/SetName/SetUID/Header.Clone/'
+         'MergeHeaders/UnmarshalText/DecodeBinary operations (error results included, any date/URI parser) every operation returns without panic and the identity '
+         'invariant HInv holds afterwards (ids = indices, owner = header, names pairwise distinct, name table exact, unlisted items released); MergeHeaders links '
+         'every source reference to an owned, listed reference of the same name and length. The model is run step by step against the implementation on random '
+         'edit histories on every run, and an independent oracle checks the invariants and the text/binary round trips on the real objects. '
+         'Round trips: only the lexical half is proved (header_text_roundtrip_partial); the rest is covered by oracle and correspondence, not by a theorem.',
+    note='Trusted: Coq kernel; the hand model (tied to the code by correspondence runs only); opaque time/URL functions (tables validated against the libraries on every run); '
+         'Go maps as association lists; sort.Sort on tag pairs as insertion sort (tags unique per item). 13 defects found and repaired in the library (see design/C07.md).',
+    technique='Coq proof over hand model (invariant by induction over histories) + vm_compute correspondence on edit histories + invariant/round-trip oracle on the real objects',
     design='6/C07')
